@@ -168,6 +168,27 @@ End GSx.
 Definition remap (n : nat) (mapping : list nat) (t : list step) : list step :=
   map (fun s => (nth (fst s) mapping O, scatter mapping (snd s) (repeat None n))) t.
 
+(* ------------------------------------------------------------------ BatchBALD *)
+(* skactiveml/pool/_bald.py, BatchBALD (greedy_selection=False) AS WRITTEN (recorded finding: duplicates under ties):
+   batch_bald runs a masked oracle-row loop in candidate space whose picks are made by
+   rand_argmax(utilities[i], random_state=0) - a fresh generator with the same seed in every step, hence the SAME
+   noise vector each time; query() then scatters the rows into sample space and picks AGAIN, row by row, with
+   rand_argmax(batch_utilities, axis=1, random_state=self.random_state_), i.e. with other noise.  The rows carry the
+   NaN marks of the internal picks. *)
+Section BatchBALD.
+  Variable n m : nat.
+  Variable mapping : list nat.
+  Variable score : list nat -> list val.
+
+  Definition bald_internal (k : nat) (noiseA : list Z) : list step :=
+    oracle_loop m (seq 0 m) score k (repeat noiseA k).
+
+  Definition bald_trace (k : nat) (noiseA : list Z) (noisesB : list (list Z)) : list step :=
+    map2 (fun (s : step) (nb : list Z) =>
+            let row := scatter mapping (snd s) (repeat None n) in (rand_argmax row nb, row))
+         (bald_internal k noiseA) noisesB.
+End BatchBALD.
+
 (* ------------------------------------------------------------------ TypiClust *)
 (* skactiveml/pool/_typi_clust.py, the batch loop AS WRITTEN (recorded findings: duplicates,
    UnboundLocalError): clusters are chosen by rand_argmax over their sizes (covered clusters have
